@@ -92,7 +92,8 @@ def run_cases(cases, timeout_ms=10000, maxmem=2048, race=False, binary=None, sha
         try:
             p = subprocess.run([exe, "-in", fin, "-out", fout, "-start", str(start), "-timeout", str(timeout_ms),
                                 "-maxmem", str(maxmem)], capture_output=True, text=True,
-                               timeout=max(60, len(cases) * timeout_ms / 1000.0 + 30), cwd=d)
+                               timeout=max(60, len(cases) * timeout_ms / 1000.0 + 30), cwd=d,
+                               env=dict(os.environ, TMPDIR=d))      # the harness's scratch directories live (and die) with this run's directory, not under /tmp
             rc = p.returncode
             err = p.stderr
         except subprocess.TimeoutExpired:
